@@ -17,7 +17,7 @@ PROP = "C11"
 MEMOS = ["C:\\statements\\jan.pdf, page 2", "ends in a backslash, quoted\\", "back\\slash alone", "\\\"escaped\\\" quote", "", "plain", "with, comma", 'with "quotes"', "line1\nline2", "cr\r\nlf", "ünïcödé ✓ 日本", "=SUM(A1)", "-leading dash", "+plus", "@at",
          "  padded  ", "\ttab", "trailing space ", "a" * 300, "semi;colon", "back\\slash", "'single'", "\"", ",", "\n", "x,\"y\"\n,z", "null", "N/A", "0"]
 AFFILS = [None, "Default", "default", "Default (R)", "(R)", "(r)", "Spouse", "spouse", "Spouse (R)", "spouse(R)", "  B  ", "B", "b (R)", "Kid  Two", "Ñandú",
-          "Default  (R)", "R", "(R) Spouse"]
+          "Default  (R)", "R", "(R) Spouse", "Mary  Ann  Smith", "A  B   C (R)"]
 CURS = ["CAD", "USD", "EUR", "GBP", "XBT"]
 
 
